@@ -72,11 +72,13 @@ class SGen:
         if c < 0.18:
             return ("name", r.choice(self.names))
         if c < 0.30:
-            return ("lit", self.fix_chars([self.ch() for _ in range(r.randint(1, 3))]))
+            return ("lit", self.fix_chars([self.ch() for _ in range(0 if r.random() < 0.08 else r.randint(1, 3))]))
         if c < 0.38:
-            return ("ilit", self.fix_chars([self.ch() for _ in range(r.randint(1, 3))]))
+            return ("ilit", self.fix_chars([self.ch() for _ in range(0 if r.random() < 0.08 else r.randint(1, 3))]))
         if c < 0.47:
             ins = r.random() < 0.3
+            if r.random() < 0.08:
+                return ("class", False, ins, [])          # an empty class: matches nothing
             items = []
             for _ in range(r.randint(1, 3)):
                 if r.random() < 0.5:
@@ -275,10 +277,11 @@ MALFORMED = [
     "R <- 'abc", 'R <- "abc', "R <- [abc", "R <- (a b", "R <- { x ", "R <- <a", "R <- a / / b", "R <- a ??", "R <- ?a", "R a b", "<- a",
     "R <- &", "R <- !", "R <- '\\q'", "R <- [\\q]", "R <- a )", "R <- a ]", "R <- a >", "R <- { { }", "R <- 'a' -", "R <- '\\8'", "R <- (a / ) )", "R <- [a", "R <- [[a", "R <- \"a", "R <- a b c <", "R <- a { ",
 ]
-E1 = [("R <- 'a' '' 'b'", "an empty single-quoted literal pushes no node: the rule tree is silently wrong / the parser has no rules"),
-      ('R <- "" \'a\'', "an empty double-quoted literal pushes no node"),
-      ("R <- [] 'a'", "an empty class pushes no node"),
-      ("R <- [[]] 'a'", "an empty case-insensitive class pushes no node")]
+# the witnesses of the former finding E1 (repaired by fix 10b1614): now ordinary grammars with a documented meaning
+E1 = [("R", ("seq", [("lit", [("c", 97, "plain")]), ("lit", []), ("lit", [("c", 98, "plain")])]), "R <- 'a' '' 'b'"),
+      ("R", ("seq", [("ilit", []), ("lit", [("c", 97, "plain")])]), 'R <- "" \'a\''),
+      ("R", ("seq", [("class", False, False, []), ("lit", [("c", 97, "plain")])]), "R <- [] 'a'"),
+      ("R", ("seq", [("class", False, True, []), ("lit", [("c", 97, "plain")])]), "R <- [[]] 'a'")]
 
 
 def conv_raw(nodes, nid):
@@ -344,8 +347,12 @@ def check(ctx):
     hdr = "package parser\n\ntype Parser Peg {\n T []string\n N int\n}\n"
     for k, bad in enumerate(MALFORMED):
         reqs.append(dict(id="bad%d" % k, text=hdr + bad + "\n", out="", inline=False, switch=False, noast=False))
-    for k, (w, what) in enumerate(E1):
-        reqs.append(dict(id="e1_%d" % k, text=hdr + w + "\n", out="", inline=False, switch=False, noast=False))
+    for k, (nm, body, w) in enumerate(E1):
+        gid = "e1_%d" % k
+        ids = {"R": 0}
+        reqs.append(dict(id=gid, text=hdr + w + "\n", out="", inline=False, switch=False, noast=False))
+        mlines.append("elab %s/0 %s" % (gid, sx_sexp(body, lambda x, ids=ids: ids.setdefault(x, len(ids)))))
+        expect[gid] = dict(rules=[(nm, body)], ids=ids, imports=[], text=hdr + w + "\n")
     reqs.append(dict(id="nohdr", text="R <- 'a'\n", out="", inline=False, switch=False, noast=False))
     reqs.append(dict(id="empty", text="", out="", inline=False, switch=False, noast=False))
     # truncations of valid texts
@@ -425,16 +432,6 @@ def check(ctx):
         ev += 1
         if r.get("panic") or not r.get("parse_err"):
             problems.append(("text without the package/type header (%s) is not reported as an error" % gid, {"text": gid}, True))
-    for k, (w, what) in enumerate(E1):
-        r = res.get("e1_%d" % k, {})
-        ev += 1
-        silently_wrong = (not r.get("parse_err")) and (not r.get("panic"))
-        if r.get("panic") or silently_wrong:
-            kf = ctx.known("front:" + w)
-            if kf:
-                ctx.known_lines.append("KNOWN-FINDING: property=C10 %s" % kf["what"])
-            else:
-                problems.append((what + " (%r)" % w, {"text": hdr + w, "raw": (r.get("raw") or "")[:400]}, True))
     rep = 0
     seen = set()
     for what, replay, found in problems:
